@@ -677,7 +677,7 @@ class Evaluator:
         if isinstance(target, (ast.Tuple, ast.List)):
             seq = val
             if isinstance(seq, Arr):
-                seq = seq.data
+                seq = [Arr(x) if isinstance(x, list) else x for x in seq.data]      # rows of an array are arrays
             if isinstance(seq, Opaque):
                 m = materialise(seq)
                 seq = m.data if m is not None else [Opaque(seq.base, seq.shape, seq.idx + (i,))
@@ -989,7 +989,20 @@ class Evaluator:
                 raise AnalysisError("E3: module constant %s is defined in terms of itself" % name)
             self._modconst_busy.add(name)
             try:
-                cache[name] = self.eval(self.mod.assigns[name].value, {})
+                chain = getattr(self.mod, "assign_chain", {}).get(name) or [self.mod.assigns[name]]
+                val = None
+                for k, st in enumerate(chain):
+                    # a later binding may be written in terms of the earlier one (NAME = f(NAME); NAME += ...)
+                    env0 = {name: val} if k else {}
+                    if isinstance(st, ast.AugAssign):
+                        val = self.binop(st.op, val, self.eval(st.value, env0), st)
+                    elif k and not any(isinstance(x, ast.Name) and x.id == name for x in ast.walk(st.value)):
+                        val = self.eval(st.value, {})
+                    else:
+                        if not k and any(isinstance(x, ast.Name) and x.id == name for x in ast.walk(st.value)):
+                            raise AnalysisError("E3: module constant %s is defined in terms of itself" % name)
+                        val = self.eval(st.value, env0)
+                cache[name] = val
             finally:
                 self._modconst_busy.discard(name)
         v = cache[name]
@@ -1749,8 +1762,10 @@ class Evaluator:
                 return [(Rat.const(i + start), x) for i, x in enumerate(seqs[0])]
             if name == "reversed" and len(seqs) == 1:
                 return list(reversed(seqs[0]))
-            if name in ("all", "any") and len(seqs) == 1 and all(isinstance(x, bool) for x in seqs[0]):
-                return all(seqs[0]) if name == "all" else any(seqs[0])
+            if name in ("all", "any") and len(seqs) == 1:
+                tv = [x if isinstance(x, bool) else (x.const_value() != 0) if isinstance(x, Rat) and x.is_const() else None for x in seqs[0]]
+                if all(t is not None for t in tv):
+                    return all(tv) if name == "all" else any(tv)
             if name == "sorted" and len(seqs) == 1 and not kwargs:
                 keys = []
                 for x in seqs[0]:
@@ -1783,7 +1798,7 @@ class Evaluator:
             return self.np_transpose_axes(base, [const_int(a_) for a_ in axes], node)
         if attr == "reshape" and args and not isinstance(base, (dict, str)):
             return self.np_call("reshape", [base] + [tuple(args) if not (len(args) == 1 and isinstance(args[0], (list, tuple))) else args[0]], {}, node)
-        if attr in ("all", "any") and isinstance(base, (list, bool)) and not args:
+        if attr in ("all", "any") and isinstance(base, (list, bool, Arr)) and not args:
             return self.np_call(attr, [base], kwargs, node)
         if attr == "clip" and isinstance(base, Arr) and len(args) == 2:
             return self.np_call("clip", [base] + list(args), kwargs, node)
@@ -2401,6 +2416,10 @@ class Evaluator:
             def flatb(v):
                 if isinstance(v, bool):
                     return [v]
+                if isinstance(v, Arr):
+                    return flatb(list(v.flat()))
+                if isinstance(v, Rat) and v.is_const():
+                    return [v.const_value() != 0]
                 if isinstance(v, (list, tuple)):
                     out = []
                     for x in v:
